@@ -17,6 +17,7 @@
 (*              "noop"]  apply handlers ("noop": ApplyChange returns an      *)
 (*              empty, non-nil revert map)                                   *)
 (*   nl        number of listeners on the resource pattern                   *)
+(*   lpanic    0, or the index of the listener that panics when it is called *)
 (*   pubfail   the connection refuses to publish resource events             *)
 (*   script    what the invoked handler does: a sequence of step names       *)
 (*                                                                         *)
@@ -67,28 +68,32 @@ Reply(sc, st, kind, code, meta) ==
     ELSE [st EXCEPT !.replied = TRUE, !.out = Append(@, Msg("reply", kind, code, meta))]
 Publish(st, to, kind) == [st EXCEPT !.out = Append(@, Msg(to, kind, "", FALSE))]
 
+\* listeners run in registration order on the calling goroutine; a panicking listener ends the event call
 RECURSIVE Notify(_, _, _, _)
-Notify(st, ev, j, n) == IF j > n THEN st ELSE Notify([st EXCEPT !.log = Append(@, <<"listen", ev, st.k, j>>)], ev, j + 1, n)
+Notify(sc, st, ev, j) ==
+    IF j > sc.nl THEN st
+    ELSE LET s1 == [st EXCEPT !.log = Append(@, <<"listen", ev, st.k, j>>)]
+         IN IF j = sc.lpanic THEN Panic(s1, "other") ELSE Notify(sc, s1, ev, j + 1)
 
 \* an event call: apply handler, publish, listeners
 Emit(sc, st, ev, ap) ==
     LET s1 == IF ap = "absent" THEN st ELSE [st EXCEPT !.log = Append(@, <<"apply", ev, st.k>>)] IN
     IF ap = "fail" THEN Panic(s1, "other")
     ELSE IF ap = "noop" THEN s1
-    ELSE IF sc.pubfail THEN Notify(s1, ev, 1, sc.nl)      \* the connection refused the message: logged, listeners still told
-    ELSE LET s2 == [Publish(s1, "event", ev) EXCEPT !.log = Append(@, <<"pub", ev, st.k>>)] IN Notify(s2, ev, 1, sc.nl)
+    ELSE IF sc.pubfail THEN Notify(sc, s1, ev, 1)      \* the connection refused the message: logged, listeners still told
+    ELSE LET s2 == [Publish(s1, "event", ev) EXCEPT !.log = Append(@, <<"pub", ev, st.k>>)] IN Notify(sc, s2, ev, 1)
 
 \* the same when the message cannot be handed to the connection (marshal or publish failure)
 EmitUnpublished(sc, st, ev, ap) ==
     LET s1 == IF ap = "absent" THEN st ELSE [st EXCEPT !.log = Append(@, <<"apply", ev, st.k>>)] IN
     IF ap = "fail" THEN Panic(s1, "other")
     ELSE IF ap = "noop" THEN s1
-    ELSE Notify(s1, ev, 1, sc.nl)
+    ELSE Notify(sc, s1, ev, 1)
 
 ReservedEvents == {"change", "delete", "add", "remove", "patch", "reaccess", "unsubscribe", "query"}
 
 \* One handler step.  a is the step name; st.k numbers the steps for the log.
-Do(sc, st0, a) ==
+DoBase(sc, st0, a) ==
     LET st == [st0 EXCEPT !.k = @ + 1]
         m == HasMeta(sc, st)
     IN CASE a = "ok"            -> Reply(sc, st, "result", "", m)
@@ -116,7 +121,7 @@ Do(sc, st0, a) ==
          [] a = "model-bad"     -> Reply(sc, st, "error", "system.internalError", FALSE)
          [] a = "new"           -> Reply(sc, st, "result", "", FALSE)
          [] a = "new-bad"       -> Panic(st, "other")
-         [] a = "timeout"       -> Publish(st, "reply", "pre")
+         [] a \in {"timeout", "timeout-max", "timeout-sub", "timeout-zero"} -> Publish(st, "reply", "pre")
          [] a = "timeout-neg"   -> Panic(st, "other")
          [] a \in {"status", "status-redirect", "status-error"} -> IF ~sc.http \/ st.replied THEN Panic(st, "other") ELSE [st EXCEPT !.status = TRUE]
          [] a \in {"header", "header-location"} -> IF ~sc.http \/ st.replied THEN Panic(st, "other") ELSE [st EXCEPT !.hdr = TRUE]
@@ -146,6 +151,13 @@ Do(sc, st0, a) ==
          [] a = "panic-int"     -> Panic(st, "other")
          [] a = "panic-nilerr"  -> Panic(st, "other")       \* a nil *Error is not an error value
          [] OTHER               -> Panic(st, "unknown-step")
+
+\* "try-x": the handler performs step x and recovers a panic it raises; the request object stays in use
+TryBase == [a \in {"try-ev-custom", "try-ev-change", "try-ev-add", "try-ev-remove", "try-ev-create", "try-ev-delete", "try-ok", "try-panic-str", "try-ev-reserved"} |->
+              CASE a = "try-ev-custom" -> "ev-custom" [] a = "try-ev-change" -> "ev-change" [] a = "try-ev-add" -> "ev-add"
+                [] a = "try-ev-remove" -> "ev-remove" [] a = "try-ev-create" -> "ev-create" [] a = "try-ev-delete" -> "ev-delete"
+                [] a = "try-ok" -> "ok" [] a = "try-panic-str" -> "panic-str" [] OTHER -> "ev-reserved"]
+Do(sc, st0, a) == IF a \in DOMAIN TryBase THEN [DoBase(sc, st0, TryBase[a]) EXCEPT !.pan = ""] ELSE DoBase(sc, st0, a)
 
 \* the deferred recover of executeHandler, and the missing-response fallback
 Finish(sc, st) ==
@@ -177,7 +189,8 @@ EventOrder(sc, o) ==
         LET e == o.log[i] IN
         /\ e[1] = "pub" => \A j \in 1..Len(o.log) : (o.log[j][1] = "apply" /\ o.log[j][3] = e[3]) => j < i
         /\ e[1] = "listen" => \A j \in 1..Len(o.log) : (o.log[j][1] \in {"apply", "pub"} /\ o.log[j][3] = e[3]) => j < i
-        /\ e[1] = "listen" => Cardinality({j \in 1..Len(o.log) : o.log[j][1] = "listen" /\ o.log[j][3] = e[3]}) = sc.nl
+        /\ e[1] = "listen" => Cardinality({j \in 1..Len(o.log) : o.log[j][1] = "listen" /\ o.log[j][3] = e[3]})
+                                 = (IF sc.lpanic \in 1..sc.nl THEN sc.lpanic ELSE sc.nl)
 \* all messages of one callback appear in program order: the step numbers in the log never decrease
 ProgramOrder(o) == \A i, j \in 1..Len(o.log) : i < j => o.log[i][3] <= o.log[j][3]
 =============================================================================
